@@ -434,16 +434,16 @@ CLAIMED["C09"] = {
     "restricted to the contour (a statement about probability measures; no "
     "contract here expresses it), the radially truncated latent samplers "
     "(numerics), log-q truncation and the x-prime-prior mode of "
-    "FlowProposal.populate, that pool points have a FINITE log-prior (the "
-    "acceptance step relies on IEEE semantics: -inf - -inf = NaN and "
-    "comparisons with NaN are False, which the exponential-image calculus "
-    "does not model; seed C09-b is therefore not detected), the augmented "
-    "/ GW / clustering proposals, "
+    "FlowProposal.populate, the augmented / GW / clustering proposals, "
     "ImportanceNestedSampler.populate_live_points. FlowProposal.populate "
     "itself IS under contract (rejection loop with loop invariants, both "
     "the per-batch and the accumulate-weights mode): exactly N in-bounds "
     "rows with the model's prior and likelihood and a permutation as index "
-    "list -- except that the accumulate-weights mode may return fewer rows "
+    "list, every row with a FINITE log-prior (neither -inf nor NaN: the "
+    "acceptance masks (log_w - max) > log_u reject such points; this uses "
+    "one IEEE fact added as a library fact of the comparison -- (p - q) > u "
+    "is False when p is -inf or NaN -- and the IEEE clause of the trusted "
+    "compute_weights) -- except that the accumulate-weights mode may return fewer rows "
     "when the documented max_samples escape hatch ends the loop (stated in "
     "the postcondition). Quick tier: radius handed in, no plotting flags "
     "(quick_requires); thorough tier: every flag combination.",
